@@ -1,9 +1,8 @@
 SPECIFICATION Spec
 CONSTANT Assignment = "Required"
-CONSTANT MaxChain = 5
+CONSTANT MaxChain = 4
 INVARIANT SameAcrossRuns
 INVARIANT CleanIsFunction
 INVARIANT SameMembers
-INVARIANT HashOrderArtefactsAre
 INVARIANT Lemmas
 CHECK_DEADLOCK FALSE
